@@ -251,3 +251,21 @@ Proof.
     cbn [pitem_ok item_ok]. split; [left; reflexivity|vm_compute; reflexivity].
   - vm_compute. repeat split; auto.
 Qed.
+
+(* WriteJSON: NextWriter(TextMessage), one Write of the encoder's output, Close.  encoding/json
+   is an oracle: [enc] is what Encoder.Encode produced. *)
+Lemma write_json_ok c s ds dn enc : 15 <= blen c < big -> SInv c s ds dn -> lenN enc < big ->
+  exists s' ds', step_op c [] s (SL [SZ 7; SB enc; SL []; SL []]) = Ok (s', eOK)
+                 /\ SInv c s' ds' (dn ++ [(1, false, enc)]).
+Proof.
+  intros Hb HS Hl. cbn [step_op sx_chunks].
+  assert (Ht : data_type opText) by (left; reflexivity).
+  destruct (do_next_ok c Hb s ds dn opText HS Ht) as (s1 & Hrun1 & H1).
+  rewrite Hrun1. cbn [bind N.eqb negb].
+  destruct (run_wr_ok c Hb opText s1 _ dn [] (WrWrite enc) H1 Ht Hl) as (s2 & g2 & Hrun2 & H2).
+  cbn [run_wr] in Hrun2. rewrite Hrun2. cbn [bind fst snd].
+  destruct (do_close_ok c Hb opText s2 g2 dn _ H2 Ht) as (s3 & ds3 & Hrun3 & H3).
+  rewrite Hrun3. cbn [bind fst snd N.eqb negb drop_handle].
+  eexists _, ds3. split; [reflexivity|].
+  destruct H3 as (HC & Ho & Hcp). unfold SInv. cbn [mw st_h wopen comp]. auto.
+Qed.
